@@ -774,10 +774,13 @@ def summarise(results):
     return out
 
 
+MD_TITLE = None        # --title: heading of the report of another group (the 'what the campaign changed' text of campaign A is then left out)
+
+
 def write_md(path, results, before=None, suite=None):
     suite = suite or {}
     props = ["C04", "C15", "C20", "C14", "C16", "C12"]
-    lines = ["# Mutation campaign A (C04, C15, C20, C14, C16)", "",
+    lines = [MD_TITLE or "# Mutation campaign A (C04, C15, C20, C14, C16)", "",
              "Generated by `tools/mutants_A.py` (plain quick tier, `VERIF_NO_ESCALATE=1`, seed 0). One hand-written one-site mutant of y0 at a",
              "time in a scratch clone; `breaking` = the mutant violates the statement of the property, `not breaking` = equivalent or",
              "outside the property (see the `why` of each mutant in the tool).", ""]
@@ -804,7 +807,7 @@ def write_md(path, results, before=None, suite=None):
         table(f"After ({len(results)} mutants: 10 were added after round 1)", summarise(results))
     else:
         table("Result", summarise(results))
-    lines += FIXES
+    lines += [] if MD_TITLE else FIXES
     bmap0 = {(rec["id"], run["prop"]): classify(rec, run) for rec in before or [] for run in rec.get("runs", [])}
     fixed = [(rec, run) for rec in results for run in rec.get("runs", [])
              if classify(rec, run) == "caught with replay" and bmap0.get((rec["id"], run["prop"]), "caught with replay") != "caught with replay"]
@@ -872,11 +875,14 @@ def main():
     ap.add_argument("--before", default=None, help="result file of the run before the fixes (for the before/after table)")
     ap.add_argument("--merge", default=None, help="existing result file: re-run only the selected mutants, keep the other records")
     ap.add_argument("--verify", action="store_true")
+    ap.add_argument("--title", default=None, help="heading line of the --md report (default: campaign A)")
     ap.add_argument("--render", action="store_true", help="only rewrite --md from the results in --json (and --before, suite file)")
     ap.add_argument("--suite", default=None, metavar="FILE",
                     help="instead of the checks run the pinned test suite (tools/baseline.py) on each selected mutant; results merged into FILE")
     ap.add_argument("--not-caught-in", default=None, metavar="RESULTS", help="select the mutants that RESULTS does not show caught with a replay by every check that ran")
     args = ap.parse_args()
+    global MD_TITLE
+    MD_TITLE = args.title
     args.repo = Path(args.repo).resolve()
     if args.repo == Path("/repo"):
         sys.exit("refusing to use /repo")
